@@ -153,3 +153,13 @@ def run_case(case):
     if got != exp:
         return {"what": "numba kernel: candidate set differs from the admissible pairs", "extra": len(got - exp), "missing": len(exp - got)}
     return None
+
+
+def replay_greedy():
+    """small instance for the assignment loop: three sources competing for two targets"""
+    from cryocat import memthick
+    fm = [(2.0, 0, 5), (1.0, 1, 5), (1.5, 0, 6), (3.0, 2, 6), (0.5, 2, 5)]
+    th, va, pp = memthick.process_matches_cpu2cpu(list(fm), 8, 2.0)
+    exp_t, exp_v, exp_p = greedy(fm, 8)
+    bad = not (np.array_equal(va, exp_v) and np.array_equal(pp[va], exp_p[exp_v]) and np.allclose(th, exp_t * 2.0))
+    return {"reproduced": bool(bad), "input": fm, "observed": {"valid": va.tolist(), "pairs": pp.tolist(), "thickness": th.tolist()}}
